@@ -21,13 +21,13 @@ TRACE_ASSUME = [
 PROPS = {
     "C01": dict(stages=[stages.l1_client], title="publish success is truthful", prefixes=["C01_"], families=TRACE_FAMILIES,
                 relevant=lambda e: e["e"] == "done" and e.get("kind") in ("pub1", "pub2") and e.get("ec") == "ok"),
-    "C02": dict(stages=[stages.l1_client], title="no silent loss", prefixes=["C02_"], families=TRACE_FAMILIES,
+    "C02": dict(stages=[stages.l1_client, stages.asan_pass(["crash", "recv", "session"])], title="no silent loss", prefixes=["C02_"], families=TRACE_FAMILIES,
                 relevant=lambda e: e["e"] in ("fault", "conn_end") or (e["e"] == "attempt_end" and e.get("res") != "ok")),
     "C03": dict(stages=[stages.l1_client], title="QoS 2 sender discipline, faithful retransmission", prefixes=["C03_"], families=TRACE_FAMILIES,
                 relevant=lambda e: e["e"] == "c_pkt" and e.get("type") == "PUBLISH" and e.get("dup") == 1),
     "C04": dict(stages=[stages.l1_recv], title="inbound acknowledgement and delivery", prefixes=["C04_"], families=TRACE_FAMILIES,
                 relevant=lambda e: e["e"] == "b_send" and e.get("type") == "PUBLISH" and e.get("qos", 0) > 0),
-    "C05": dict(stages=[stages.l1_lifecycle], title="exactly-once non-re-entrant completion; cancel drains", prefixes=["C05_"], families=TRACE_FAMILIES,
+    "C05": dict(stages=[stages.l1_lifecycle, stages.asan_pass(["lifecycle", "send"])], title="exactly-once non-re-entrant completion; cancel drains", prefixes=["C05_"], families=TRACE_FAMILIES,
                 relevant=lambda e: e["e"] in ("cancel_all", "destroy", "cancel_op") or (e["e"] == "call" and e.get("kind") == "disc")),
     "C06": dict(stages=[stages.l1_client], title="PUBLISH order", prefixes=["C06_"], families=TRACE_FAMILIES,
                 relevant=lambda e: e["e"] == "c_pkt" and e.get("type") == "PUBLISH" and e.get("dup") == 1),
